@@ -184,7 +184,7 @@ def run(ctx):
             cases.append(make_case(segs, _variant(ctx.rng, nseg)))
             ctx.case(key=(nseg, tuple(sorted(r["kinds"]))), nontrivial=bool(r["kinds"]))
     nseed = 0
-    for nseg, n in ((3, 600), (4, 900)) if ctx.quick else ((3, 6000), (4, 12000)):
+    for nseg, n in ((3, 400), (4, 600)) if ctx.quick else ((3, 6000), (4, 12000)):
         for segs in _seeded(ctx.rng, 4, nseg, n):
             cases.append(make_case(segs, _variant(ctx.rng, nseg)))
             ctx.case(key=None)
